@@ -10,7 +10,13 @@ import (
 	"github.com/go-kid/ioc/syslog"
 )
 
-// ReadInput decodes the JSON document on stdin.
+// VerboseEnv is set (to "1") in the environment of a driver process that runs its cases under the formatting logger, so that
+// the child processes a driver re-executes itself as run the same way.
+const VerboseEnv = "VERIF_HX_VERBOSE"
+
+// ReadInput decodes the JSON document on stdin.  A top-level `"verbose": true` (or VerboseEnv=1, inherited from a parent
+// driver process) switches the whole process to the formatting logger (VerboseQuiet) BEFORE anything of the container
+// runs: the library caches its prefixed loggers on first use.
 func ReadInput(v any) {
 	data, err := io.ReadAll(os.Stdin)
 	if err != nil {
@@ -19,6 +25,14 @@ func ReadInput(v any) {
 	if err := json.Unmarshal(data, v); err != nil {
 		fmt.Fprintln(os.Stderr, "bad input:", err)
 		os.Exit(3)
+	}
+	var flag struct {
+		Verbose bool `json:"verbose"`
+	}
+	_ = json.Unmarshal(data, &flag)
+	if flag.Verbose || os.Getenv(VerboseEnv) == "1" {
+		_ = os.Setenv(VerboseEnv, "1")
+		VerboseQuiet()
 	}
 }
 
@@ -31,15 +45,18 @@ func WriteOutput(v any) {
 	fmt.Printf("\n@@JSON %s\n", data)
 }
 
-// Quiet silences the container's logging (logs are never compared).
+// Quiet silences the container's logging (logs are never compared).  Under VerboseQuiet it changes nothing: the
+// formatting logger keeps itself at every level.
 func Quiet() {
 	syslog.Level(syslog.LvFatal)
 }
 
 // FmtLogger is a container logger at the most verbose level that FORMATS every message (so that String(), Error()
 // and %v of whatever the library logs are really evaluated, as under a debug or trace log level) and throws the text
-// away.  Panic / Panicf panic like the library's own logger does at every level up to LvPanic.
-type FmtLogger struct{}
+// away.  Panic / Panicf panic like the library's own logger does at every level up to LvPanic - unless NoPanic is
+// set: then they only format, which is what the library's logger does (as far as outcomes go) at LvFatal, the level of
+// Quiet().  Fatal / Fatalf panic: the library's own logger never returns from them either.
+type FmtLogger struct{ NoPanic bool }
 
 func (l FmtLogger) Level(syslog.Lv) syslog.Logger { return l }
 func (l FmtLogger) Pref(any) syslog.Logger        { return l }
@@ -55,13 +72,38 @@ func (FmtLogger) Warn(v ...any)                   { fmtDiscard(v...) }
 func (FmtLogger) Warnf(f string, v ...any)        { fmtDiscardf(f, v...) }
 func (FmtLogger) Error(v ...any)                  { fmtDiscard(v...) }
 func (FmtLogger) Errorf(f string, v ...any)       { fmtDiscardf(f, v...) }
-func (FmtLogger) Panic(v ...any)                  { fmtDiscard(v...); panic(v) }
-func (FmtLogger) Panicf(f string, v ...any)       { panic(fmt.Sprintf(f, v...)) }
-func (FmtLogger) Fatal(v ...any)                  { fmtDiscard(v...); panic(v) }
-func (FmtLogger) Fatalf(f string, v ...any)       { panic(fmt.Sprintf(f, v...)) }
+func (l FmtLogger) Panic(v ...any) {
+	fmtDiscard(v...)
+	if !l.NoPanic {
+		panic(v)
+	}
+}
+func (l FmtLogger) Panicf(f string, v ...any) {
+	if !l.NoPanic {
+		panic(fmt.Sprintf(f, v...))
+	}
+	fmtDiscardf(f, v...)
+}
+func (FmtLogger) Fatal(v ...any)            { fmtDiscard(v...); panic(v) }
+func (FmtLogger) Fatalf(f string, v ...any) { panic(fmt.Sprintf(f, v...)) }
+
+var verboseOn bool
 
 // Verbose installs FmtLogger.  Call it once at process start: the library caches its prefixed loggers.
-func Verbose() { syslog.SetLogger(FmtLogger{}) }
+func Verbose() { verboseOn = true; syslog.SetLogger(FmtLogger{}) }
+
+// VerboseQuiet installs the FmtLogger whose outcomes are those of Quiet(): everything is formatted, nothing is printed,
+// Panic / Panicf do not panic.  Call it once at process start (ReadInput does, on the `verbose` flag of the input).
+func VerboseQuiet() {
+	verboseOn = true
+	syslog.SetLogger(FmtLogger{NoPanic: true})
+	if os.Getenv("VERIF_HX_TRACE") == "1" { // diagnostics: which processes of a driver run went verbose
+		fmt.Fprintf(os.Stderr, "@@HXVERBOSE pid=%d args=%d\n", os.Getpid(), len(os.Args))
+	}
+}
+
+// IsVerbose: has a formatting logger been installed in this process?
+func IsVerbose() bool { return verboseOn }
 
 // Guard runs f and converts a panic into a string ("" = no panic).
 func Guard(f func()) (panicked string) {
